@@ -133,7 +133,7 @@ let () =
   let histories = ref 0 and steps = ref 0 in
   let mm17 = ref 0 and mm18 = ref 0 and mmfull = ref 0 and mmenv = ref 0 and sp17 = ref 0 and sp18 = ref 0 and bad = ref 0 in
   let agree_full = ref 0 in
-  let hist_bad = ref false and hist_env = ref false in
+  let hist_bad = ref false and hist_env = ref false and hist_stuck = ref false in
   let close_hist () =
     if !hist <> "" then Printf.printf "HIST %s steps=%d %s%s\n" !hist !stepno (if !hist_bad then "DIVERGES" else "agrees") (if !hist_env then " ENV" else "") in
   (try
@@ -151,12 +151,16 @@ let () =
          match w with
          | "H" :: id :: _ ->
              close_hist ();
-             hist := id; stepno := 0; st := kq_st_init; sp := kq_sp_init; hist_bad := false; hist_env := false;
+             hist := id; stepno := 0; st := kq_st_init; sp := kq_sp_init; hist_bad := false; hist_env := false; hist_stuck := false;
              incr histories
          | "E" :: _ -> ()
          | _ -> (
              match parse_step w with
              | None -> incr bad; Printf.printf "BAD hist=%s line=%s\n" !hist stepS
+             | Some _ when !hist_stuck -> ()
+             | Some _ when obsS = "res=reader-stuck" ->
+                 incr stepno; hist_stuck := true; incr sp18;
+                 Printf.printf "MISMATCH SPEC C18 hist=%s step=%d clause=reader-blocked detail=[the reader neither went idle nor exited] at: %s\n" !hist !stepno stepS
              | Some x ->
                  incr stepno; incr steps;
                  let impl = parse_obs obsS in
